@@ -21,6 +21,13 @@ Definition obs_diff (m i : obs) : list Z :=
   ++ chk 3 (list_eqb (list_eqb rdres_eqb) (ob_reads m) (ob_reads i))
   ++ chk 4 (list_eqb (list_eqb Bool.eqb) (ob_local m) (ob_local i)).
 
+(* the observation before the first operation: values the driver did not read ([RE OtherError]) are not compared *)
+Definition obs_diff0 (m i : obs) : list Z :=
+  chk 1 (outcome_eqb (ob_out m) (ob_out i))
+  ++ chk 2 (events_eqb (ob_events m) (ob_events i))
+  ++ chk 3 (list_eqb (list_eqb rd_keeps) (ob_reads m) (ob_reads i))
+  ++ chk 4 (list_eqb (list_eqb Bool.eqb) (ob_local m) (ob_local i)).
+
 (* the model state cannot be re-synchronised from observations (dict membership of plain traits is
    not observed), so only the first disagreeing step is reported *)
 Fixpoint corr_hist (i : Z) (st : state) (h : list (op * obs)) : list Z :=
@@ -36,13 +43,19 @@ Fixpoint corr_hist (i : Z) (st : state) (h : list (op * obs)) : list Z :=
 
 Definition cfg_of (cs : list cls) (os : list obj) : cfg := mkG cs (map o_cls os).
 
+(* the local values given at construction, as the law's initial specification state *)
+Definition initial_locals (g : cfg) (os : list obj) : lspec :=
+  flat_map (fun o => flat_map (fun e => if is_deleg g (o, fst e) then [((o, fst e), snd e)] else [])
+                              (o_dict (nth o os dummy_obj)))
+           (seq 0 (length os)).
+
 Definition corr_codes (c : case) : list Z :=
   let '(cs, os, ob0, h) := c in
-  let st := init_state cs os in
-  match obs_diff (mkObs Done [] (snapshot st) (locals st)) ob0 with
+  let st := init_state_k cs os in
+  match obs_diff0 (mkObs Done [] (snapshot st) (locals st)) ob0 with
   | [] => corr_hist 0 st h
   | d => map (fun c => 9000 + c) d
   end.
 
 Definition law_codes (c : case) : list Z :=
-  let '(cs, os, ob0, h) := c in law_hist (cfg_of cs os) 0 [] ob0 h.
+  let '(cs, os, ob0, h) := c in law_hist (cfg_of cs os) 0 (initial_locals (cfg_of cs os) os) ob0 h.
